@@ -175,8 +175,8 @@ def check(program: Program, run: Run) -> None:
         ra = root_attr(s["recv"])
         req = None
         if fcls in stmt_classes and ra in EMBED:
-            if ra == "_selects" and "_group_sql" in s["func"]:
-                continue
+            if ra == "_selects" and ("_group_sql" in s["func"] or any("_groupbys" in show(x) for x in s["conds"])):
+                continue      # a select item written in GROUP BY position (picked by a GROUP BY key), not the select list
             if ra == "_with" and ".terms" in s["recv"]:
                 continue
             req = EMBED[ra]
